@@ -172,6 +172,17 @@ fn privacy_programs() -> Vec<(String, bool, String)> {
             }
         }
     }
+    // nested modules: a private member of a DESCENDANT module referenced from an ancestor, spelled relatively,
+    // absolutely and through `use` (the ancestor is outside the member's module: must be rejected), and from a
+    // grandparent; control: the same spellings of a `pub` member are accepted
+    for (desc, member_vis, must_reject) in [("private", "", true), ("public", "pub ", false)] {
+        for (rname, call_in_outer) in [("relative path from parent", "inner::hidden(x)"), ("absolute path from parent", "outer::inner::hidden(x)")] {
+            let src = format!("mod outer {{ pub mod inner {{ {member_vis}fn hidden(x) {{ x * 3.0 }} pub fn ok(x) {{ hidden(x) }} }} pub fn run(x) {{ {call_in_outer} }} }}\nfn dsp() {{ outer::run(1.0) }}\n");
+            out.push((src, must_reject, format!("{rname} ({desc} member of a child module)")));
+        }
+        let src = format!("mod a {{ pub mod b {{ pub mod c {{ {member_vis}fn hidden(x) {{ x * 5.0 }} }} }} pub fn run(x) {{ b::c::hidden(x) }} }}\nfn dsp() {{ a::run(1.0) }}\n");
+        out.push((src, must_reject, format!("relative path from grandparent ({desc} member)")));
+    }
     // control: the owner itself and a child module may use the private member
     out.push(("mod osc { fn secret(x) { x * 2.0 } pub fn open(x) { osc::secret(x) } mod detail { pub fn twice(x) { osc::secret(x) } } pub fn t(x) { osc::detail::twice(x) } }\nfn dsp() { osc::open(1.0) + osc::t(1.0) }\n".to_string(), false, "own hierarchy".into()));
     out
@@ -240,6 +251,66 @@ fn run_vm(src: &str, times: usize) -> Result<Vec<f64>, String> {
     for _ in 0..times {
         if machine.execute_entry("dsp") < 0 { return Err("dsp failed".into()); }
         out.push(Machine::get_as_array::<f64>(machine.get_top_n(1))[0]);
+    }
+    Ok(out)
+}
+/// (program A, program B, samples before the swap, expected outputs after the swap, description)
+fn layout_programs() -> Vec<(String, String, usize, Vec<f64>, String)> {
+    let mut v = vec![];
+    let cont = |n: usize, m: usize| -> Vec<f64> { (1..=m).map(|k| (n + k) as f64).collect() };
+    // a counter (`self`) next to a delay / a mem / a stateful call that is removed by the edit
+    for (extra, desc) in [("delay(4.0, 100.0, 2.0)*0.0", "self + delay"), ("mem(50.0)*0.0", "self + mem"), ("delay(2.0, 7.0, 1.0)*0.0 + mem(9.0)*0.0", "self + delay + mem")] {
+        v.push((format!("fn dsp(){{ self + 1.0 + {extra} }}\n"), "fn dsp(){ self + 1.0 }\n".to_string(), 6, cont(6, 4), format!("{desc} -> self")));
+    }
+    // the same inside a called function
+    v.push(("fn cnt(){ self + 1.0 + delay(4.0, 100.0, 2.0)*0.0 }\nfn dsp(){ cnt() }\n".to_string(), "fn cnt(){ self + 1.0 }\nfn dsp(){ cnt() }\n".to_string(), 6, cont(6, 4), "callee: self + delay -> self".to_string()));
+    // control without `self`: two mems, the second removed
+    v.push(("fn cnt(){ self + 1.0 }\nfn dsp(){ cnt() + mem(3.0)*0.0 }\n".to_string(), "fn cnt(){ self + 1.0 }\nfn dsp(){ cnt() }\n".to_string(), 5, cont(5, 3), "call + mem -> call".to_string()));
+    v
+}
+fn run_hotswap_quiet(a: &str, b: &str, n: usize, m: usize) -> Result<Vec<f64>, String> {
+    use mimium_lang::{Config, ExecContext};
+    use mimium_lang::runtime::vm::Machine;
+    let mut ctx = ExecContext::new([].into_iter(), None, Config::default());
+    ctx.prepare_machine(a).map_err(|e| e.iter().map(|x| x.get_message()).collect::<Vec<_>>().join("; "))?;
+    let prog_b = ctx.get_compiler().ok_or("no compiler")?.emit_bytecode(b)
+        .map_err(|e| e.iter().map(|x| x.get_message()).collect::<Vec<_>>().join("; "))?;
+    let machine = ctx.get_vm_mut().ok_or("no vm")?;
+    let _ = machine.execute_main();
+    let mut out = vec![];
+    for _ in 0..n {
+        if machine.execute_entry("dsp") < 0 { return Err("dsp failed".into()); }
+        out.push(Machine::get_as_array::<f64>(machine.get_top_n(1))[0]);
+    }
+    let mut m2 = machine.new_resume(prog_b);
+    let _ = m2.execute_main();
+    for _ in 0..m {
+        if m2.execute_entry("dsp") < 0 { return Err("dsp failed".into()); }
+        out.push(Machine::get_as_array::<f64>(m2.get_top_n(1))[0]);
+    }
+    Ok(out)
+}
+fn run_hotswap(a: &str, b: &str, n: usize, m: usize) -> Result<Vec<f64>, String> {
+    use mimium_lang::{Config, ExecContext};
+    use mimium_lang::runtime::vm::Machine;
+    let mut ctx = ExecContext::new([].into_iter(), None, Config::default());
+    ctx.prepare_machine(a).map_err(|e| e.iter().map(|x| x.get_message()).collect::<Vec<_>>().join("; "))?;
+    let prog_b = ctx.get_compiler().ok_or("no compiler")?.emit_bytecode(b)
+        .map_err(|e| e.iter().map(|x| x.get_message()).collect::<Vec<_>>().join("; "))?;
+    let machine = ctx.get_vm_mut().ok_or("no vm")?;
+    println!("skeleton A: {:?}", machine.prog.get_dsp_state_skeleton());
+    println!("skeleton B: {:?}", prog_b.get_dsp_state_skeleton());
+    let _ = machine.execute_main();
+    let mut out = vec![];
+    for _ in 0..n {
+        if machine.execute_entry("dsp") < 0 { return Err("dsp failed".into()); }
+        out.push(Machine::get_as_array::<f64>(machine.get_top_n(1))[0]);
+    }
+    let mut m2 = machine.new_resume(prog_b);
+    let _ = m2.execute_main();
+    for _ in 0..m {
+        if m2.execute_entry("dsp") < 0 { return Err("dsp failed".into()); }
+        out.push(Machine::get_as_array::<f64>(m2.get_top_n(1))[0]);
     }
     Ok(out)
 }
@@ -389,6 +460,39 @@ fn main() {
             Ok(v) => println!("FAILS C17[every accepted reference resolves to the definition its module path denotes] a::g() calls `f` imported by `use x::f` inside module a, but resolves to y::f (imported in module b): dsp = {} instead of 12", v[0]),
             Err(e) => println!("HOLDS (program rejected: {e})"),
         }
+        return;
+    }
+    if args.get(1).map(|s| s.as_str()) == Some("layout-search") || args.get(1).map(|s| s.as_str()) == Some("layout-run") {
+        // property C05 (compile-time layout == run-time accesses), observed through a hot swap: program A is run for n
+        // samples, then swapped (Machine::new_resume = state migration by the published layouts) for program B, which is
+        // A with one output-neutral stateful call removed.  The cells B keeps must continue from their values.
+        let progs = layout_programs();
+        let only: Option<usize> = args.get(2).and_then(|s| s.parse().ok());
+        for (i, (a, b, n, expect, desc)) in progs.iter().enumerate() {
+            if let Some(o) = only { if o != i { continue; } }
+            let bad = match run_hotswap_quiet(a, b, *n, expect.len()) {
+                Ok(v) => if v[*n..] == expect[..] { None } else { Some(format!("after the swap got {:?} expected {:?}", &v[*n..], expect)) },
+                Err(e) => Some(format!("error: {e}")),
+            };
+            if args[1] == "layout-run" {
+                match bad { Some(c) => println!("FAILS C05[layout published for `{desc}` != run-time cell positions] {c}"), None => println!("HOLDS") }
+                return;
+            }
+            if let Some(c) = bad {
+                println!("FOUND index={i} value={desc:?} clause=C05[layout published for the function != run-time cell positions: untouched cell does not continue across a hot swap] {c}");
+                return;
+            }
+        }
+        println!("NONE tried={}", progs.len());
+        return;
+    }
+    if args.get(1).map(|s| s.as_str()) == Some("hotswap") {
+        // developer aid: run file A for n samples on the VM, hot-swap to file B (Machine::new_resume), run m more
+        let a = std::fs::read_to_string(&args[2]).unwrap();
+        let b = std::fs::read_to_string(&args[3]).unwrap();
+        let n: usize = args[4].parse().unwrap();
+        let m: usize = args[5].parse().unwrap();
+        match run_hotswap(&a, &b, n, m) { Ok(v) => println!("OUT {v:?}"), Err(e) => println!("ERR {e}") }
         return;
     }
     if args.get(1).map(|s| s.as_str()) == Some("run-src") {
